@@ -32,20 +32,21 @@ META = dict(
          'distinct by member name',
     bounds='1-3 scenarios (integer / string labels), event-wise static and affinely adaptive decisions, supports: boxes, '
            'singletons, lifted |z| <= u sets; expectation sets on all scenarios and on sub-events (boxes/equalities); '
-           'probability sets: fixed, lower bounds, box, 1-norm ball; objectives minsup/maxinf with affine, bi-affine, '
+           'probability sets: fixed, lower bounds, box, 1-norm ball, KL-divergence balls and entropy level sets (cone-pairing '
+           'relaxation + reformulation-linearisation, weights symbolic); objectives minsup/maxinf with affine, bi-affine, '
            'E(maxof)/E(minof); E-constraints and plain robust constraints; per-constraint ambiguity sets; weight polytopes '
            'with <= 64 vertices',
-    outside='KL / entropy probability sets and exp-cone supports (dual exponential cone); norm-2 supports or expectation '
-            'sets; integrands that are not convex piecewise-affine in z',
+    outside='exp-cone supports; exactness under KL / entropy sets (C04); norm-2 supports or expectation sets; integrands that are not convex piecewise-affine in z',
     assumptions=['Lemma J (vertex spreading / Jensen) for convex piecewise-affine integrands over polytope supports',
-                 'Lemma V as in C01', 'interface columns through the real DecVar.get() with a sentinel solution'],
+                 'Lemma V as in C01', 'pairing inequality of the exponential cone (DESIGN.md 3.10)', 'interface columns through the real DecVar.get() with a sentinel solution'],
 )
 
 
 def cases(tier, seed, rnd):
     n = 12 if tier == 'quick' else 400
     return [dict(name=n_) for n_ in members()] + [dict(name=n_) for n_ in kl_members()] + \
-        [dict(name='rand%d' % rnd.randint(0, 10 ** 6)) for _ in range(n)]
+        [dict(name='rand%d' % rnd.randint(0, 10 ** 6)) for _ in range(n)] + \
+        [dict(name='randkl%d' % rnd.randint(0, 10 ** 6)) for _ in range(6 if tier == 'quick' else 120)]
 
 
 def run_case(case, ses):
